@@ -1,9 +1,122 @@
-From Coq Require Import List NArith Bool Lia.
+(* C38 — registry path parsing recovers exactly the components a path was built from.
+   Assembly of the per-pattern results (C38_uploads, C38_manifests, C38_layers, C38_repo,
+   C38_cross, C38_shapes) into the statements of Properties/C38.v. *)
+From Coq Require Import List NArith Arith Bool Lia.
 From K.Gen Require Import C38_consts.
 From K.Model Require Import C38.
+From K.Proof Require Import C38_engine C38_segs C38_tac C38_shapes C38_uploads C38_manifests C38_layers C38_repo C38_cross.
 Import ListNotations.
 Local Open Scope N_scope.
 
-(* the pattern trees print to exactly the literals extracted from paths.go *)
+(* the pattern trees print to exactly the literals extracted from paths.go, and are in the
+   fragment the printer reads back unambiguously *)
 Lemma patterns_are_source : table_ok (pattern_table ast_get_repo) = true.
 Proof. vm_compute. reflexivity. Qed.
+Lemma roots_are_source : repository_root = v2_root ++ sl s_repositories.
+Proof. reflexivity. Qed.
+
+Ltac prep := cbn [pk_ok]; intros Hk;
+  repeat match goal with H : _ && _ = true |- _ => apply andb_true_iff in H; destruct H end.
+
+(* ---- clause 1: classification ---- *)
+Theorem parse_built k : pk_ok k = true -> parse_path (build k) = o_parse (expected k).
+Proof.
+  destruct k; prep; unfold parse_path, match_manifests, match_layers, match_blobs.
+  - rewrite mm_revisions by assumption. reflexivity.
+  - rewrite mm_revision by assumption. reflexivity.
+  - rewrite mm_tags by assumption. reflexivity.
+  - rewrite mm_tag_current by assumption. reflexivity.
+  - rewrite mm_tag_index by assumption. reflexivity.
+  - rewrite mm_layer by assumption. cbn [first_cap].
+    unfold match_uploads. rewrite mu_layer by assumption. cbn [first_cap].
+    rewrite ml_layer by assumption. destruct data; reflexivity.
+  - rewrite mm_blob by assumption. cbn [first_cap].
+    unfold match_uploads. rewrite mu_blob by assumption. cbn [first_cap].
+    rewrite ml_blob by assumption. cbn [first_cap].
+    pose proof (mb_blob hex) as X. destruct (exec ast_match_blobs _); [reflexivity|exfalso; apply X; auto].
+  - rewrite mm_upload_data by assumption. cbn [first_cap]. rewrite match_uploads_data by assumption. reflexivity.
+  - rewrite mm_upload_startedat by assumption. cbn [first_cap]. rewrite match_uploads_startedat by assumption. reflexivity.
+  - rewrite mm_upload_hashstates by assumption. cbn [first_cap]. rewrite match_uploads_hashstates by assumption. reflexivity.
+  - rewrite mm_upload_hashstate by assumption. cbn [first_cap]. rewrite match_uploads_hashstate by assumption. reflexivity.
+Qed.
+
+(* ---- clause 2: the extractors return exactly the components ---- *)
+Lemma build_repo_form k : o_repo (expected k) <> None ->
+  exists r kw rest, o_repo (expected k) = Some r /\ build k = repo_dir r ++ SL :: kw ++ rest
+    /\ (kw = s_manifests \/ kw = s_layers \/ kw = s_uploads)
+    /\ (pk_ok k = true -> repo_ok r = true).
+Proof.
+  destruct k; cbn [expected o_repo no_obs]; intros Hn; try congruence;
+    match goal with |- exists r kw rest, Some ?r0 = Some r /\ _ => exists r0 end.
+  all: cbn [build pk_ok]; unfold sls.
+  all: try (exists s_manifests; eexists; split; [reflexivity|]; split; [rewrite <- !app_assoc; cbn [app]; rewrite <- ?app_assoc; reflexivity|]; split; [auto|]; intros H; repeat (apply andb_true_iff in H as [H ?]); assumption).
+  all: try (exists s_layers; eexists; split; [reflexivity|]; split; [rewrite <- !app_assoc; cbn [app]; rewrite <- ?app_assoc; reflexivity|]; split; [auto|]; intros H; repeat (apply andb_true_iff in H as [H ?]); assumption).
+  all: try (exists s_uploads; eexists; split; [reflexivity|]; split; [rewrite <- !app_assoc; cbn [app]; rewrite <- ?app_assoc; reflexivity|]; split; [auto|]; intros H; repeat (apply andb_true_iff in H as [H ?]); assumption).
+Qed.
+
+Theorem repo_built k : pk_ok k = true -> get_repo (build k) = o_repo (expected k).
+Proof.
+  intros Hk. destruct (o_repo (expected k)) as [r0|] eqn:E.
+  - destruct (build_repo_form k) as (r & kw & rest & Er & Eb & Hkw & Hr); [congruence|].
+    rewrite E in Er. injection Er as ->. unfold get_repo, get_repo_with. rewrite Eb, get_repo_built by auto. reflexivity.
+  - destruct k; try discriminate E. unfold get_repo, get_repo_with. rewrite repo_none by exact Hk. reflexivity.
+Qed.
+
+Theorem tag_built k : pk_ok k = true -> get_manifest_tag (build k) = o_tag (expected k).
+Proof.
+  intros Hk. unfold get_manifest_tag. destruct (has_tag k) eqn:E.
+  - destruct k; try discriminate E; revert Hk; prep.
+    + rewrite tag_current by assumption. reflexivity.
+    + rewrite tag_index by assumption. cbn [expected o_tag]. do 2 f_equal.
+      unfold s_index, s_current. reflexivity.
+  - rewrite tag_none by assumption. destruct k; try discriminate E; reflexivity.
+Qed.
+
+Theorem blob_built k : pk_ok k = true -> get_blob_digest (build k) = o_blob (expected k).
+Proof.
+  intros Hk. unfold get_blob_digest, digest_of. destruct (is_blob k) eqn:E.
+  - destruct k; try discriminate E. cbn [pk_ok] in Hk. rewrite blob_digest by assumption. cbn [first_cap].
+    rewrite valid_hex_sha by assumption. reflexivity.
+  - rewrite blob_none by assumption. destruct k; try discriminate E; reflexivity.
+Qed.
+Theorem layer_built k : pk_ok k = true -> get_layer_digest (build k) = o_layer (expected k).
+Proof.
+  intros Hk. unfold get_layer_digest, digest_of. destruct (is_layer k) eqn:E.
+  - destruct k; try discriminate E. revert Hk; prep. rewrite layer_digest by assumption. cbn [first_cap].
+    rewrite valid_hex_sha by assumption. reflexivity.
+  - rewrite layer_none by assumption. destruct k; try discriminate E; reflexivity.
+Qed.
+Theorem manifest_built k : pk_ok k = true -> get_manifest_digest (build k) = o_manifest (expected k).
+Proof.
+  intros Hk. unfold get_manifest_digest, digest_of. destruct (has_mdigest k) eqn:E.
+  - destruct k; try discriminate E; revert Hk; prep.
+    + rewrite mdigest_revision by assumption. cbn [first_cap]. rewrite valid_hex_sha by assumption. reflexivity.
+    + rewrite mdigest_tag_index by assumption. cbn [first_cap]. rewrite valid_hex_sha by assumption. reflexivity.
+  - rewrite mdigest_none by assumption. destruct k; try discriminate E; reflexivity.
+Qed.
+Theorem uuid_built k : pk_ok k = true -> get_upload_uuid (build k) = o_uuid (expected k).
+Proof.
+  intros Hk. unfold get_upload_uuid. destruct (is_upload k) eqn:E.
+  - destruct k; try discriminate E; revert Hk; prep.
+    + rewrite uuid_data by assumption. reflexivity.
+    + rewrite uuid_startedat by assumption. reflexivity.
+    + rewrite uuid_hashstates by assumption. reflexivity.
+    + rewrite uuid_hashstate by assumption. reflexivity.
+  - rewrite uuid_none by assumption. destruct k; try discriminate E; reflexivity.
+Qed.
+Theorem algo_built k : pk_ok k = true -> get_upload_algo_offset (build k) = o_algo (expected k).
+Proof.
+  intros Hk. unfold get_upload_algo_offset. destruct (is_hashstate k) eqn:E.
+  - destruct k; try discriminate E; revert Hk; prep. rewrite algo_hashstate by assumption. reflexivity.
+  - rewrite algo_none by assumption. destruct k; try discriminate E; reflexivity.
+Qed.
+
+(* all eight functions at once *)
+Theorem observe_built k : pk_ok k = true -> observe (build k) = expected k.
+Proof.
+  intros Hk. unfold observe, observe_with. fold get_repo.
+  rewrite parse_built, repo_built, tag_built, blob_built, layer_built, manifest_built, uuid_built, algo_built by exact Hk.
+  destruct k; reflexivity.
+Qed.
+Corollary observe_valid k : pk_valid k = true -> observe (build k) = expected k.
+Proof. intros H. apply observe_built, pk_valid_ok, H. Qed.
